@@ -220,7 +220,7 @@ type c08TypedCase struct {
 	Variant string `json:"variant"`       // var | default | split | yaml11-true | yaml11-false | invalid
 	Text    string `json:"text"`          // what the variable holds
 	Dotted  bool   `json:"dotted"`        // the service and the resources carry names with a dot (`svc.v1`)
-	Via     string `json:"via,omitempty"` // "" main file | include (the document is an included file) | second-document
+	Via     string `json:"via,omitempty"` // "" main file | include (the document is an included file) | second-document | after-include
 }
 
 // dotNames renames the service and the top-level resources of the fat document to names containing a dot,
@@ -422,6 +422,20 @@ func c08TypedCheck(c *Ctx, cs c08TypedCase) *Failure {
 			r := lc.loadAt(root, false, 0)
 			r.Project = rebaseProject(r.Project, root)
 			return r
+		case "after-include":
+			// a document of the including project that comes after the include: its variables are the project's,
+			// not those of the project it included (whose .env defines the name used here)
+			lc := loadCase{Files: []memFile{{Name: "compose.yaml", Content: "include:\n  - side/compose.yaml\n---\n" + emitYAML(doc, nil)},
+				{Name: "side/compose.yaml", Content: "services:\n  side:\n    image: busybox\n    network_mode: none\n    labels: {seen: \"${UNSET_VARIABLE:-}\"}\n"},
+				{Name: "side/.env", Content: "UNSET_VARIABLE=defined-by-the-included-project-only\nEMPTY=not-empty-there\n"}}, Main: []string{"compose.yaml"}, Env: env, Opts: loadOpts{SkipConsistencyCheck: true}}
+			root, cleanup, err := lc.materialise()
+			if err != nil {
+				return loadResult{Err: err}
+			}
+			defer cleanup()
+			r := lc.loadAt(root, false, 0)
+			r.Project = rebaseProject(r.Project, root)
+			return r
 		case "second-document":
 			return loadCase{Files: []memFile{{Name: "compose.yaml", Content: "services:\n  front-document:\n    image: busybox\n    network_mode: none\n---\n" + emitYAML(doc, nil)}},
 				Main: []string{"compose.yaml"}, Env: env, Opts: loadOpts{SkipConsistencyCheck: true}}.loadMem()
@@ -546,6 +560,7 @@ func c08TypedCases() ([]c08TypedCase, map[string]int) {
 		out = append(out, c08TypedCase{Path: p, Literal: lit, Kind: kind, Variant: "var", Text: lit, Via: "include"})
 		out = append(out, c08TypedCase{Path: p, Literal: lit, Kind: kind, Variant: "default", Text: lit, Via: "include"})
 		out = append(out, c08TypedCase{Path: p, Literal: lit, Kind: kind, Variant: "var", Text: lit, Via: "second-document"})
+		out = append(out, c08TypedCase{Path: p, Literal: lit, Kind: kind, Variant: "default", Text: lit, Via: "after-include"})
 		switch kind {
 		case "bool":
 			for _, t := range []string{"yes", "on", "y", "Yes", "ON", "TRUE", "True"} {
